@@ -371,12 +371,48 @@ fn check_int(e: &Expect, o: Obs, kind: OutKind) -> Verdict {
 // generic callers (the real library code runs here)
 // ---------------------------------------------------------------------------------------
 
+thread_local! {
+    /// > 0: a caller-supplied `VecDeque` buffer gets its head rotated by this many slots before the call
+    /// (the ring buffer made by `uninit(len)` is full, so rotating moves the head: physically wrapped)
+    pub static BUF_ROT: std::cell::Cell<usize> = const { std::cell::Cell::new(0) };
+}
+
+/// rotate the head of a caller-supplied ring buffer (no-op for every other buffer type)
+pub fn rotate_ring_buffer<B>(b: &mut B) {
+    use std::any::type_name;
+    use std::collections::VecDeque;
+    use std::mem::MaybeUninit;
+    let rot = BUF_ROT.with(|r| r.get());
+    if rot == 0 {
+        return;
+    }
+    macro_rules! try_ty {
+        ($t:ty) => {
+            if type_name::<B>() == type_name::<VecDeque<MaybeUninit<$t>>>() {
+                // same type (checked by name: `Any` would force 'static bounds through every generic caller)
+                let d: &mut VecDeque<MaybeUninit<$t>> = unsafe { &mut *(b as *mut B as *mut VecDeque<MaybeUninit<$t>>) };
+                if d.len() > 1 {
+                    let k = rot % d.len();
+                    d.rotate_left(k);
+                }
+                return;
+            }
+        };
+    }
+    try_ty!(f64);
+    try_ty!(f32);
+    try_ty!(i32);
+    try_ty!(Option<f64>);
+    try_ty!(Option<i32>);
+}
+
 macro_rules! disp {
     ($v:expr, $path:expr, $O:ty, $U:ty, $m:ident, $mto:ident, ($($arg:expr),*)) => {
         match $path {
             Path::Ret => $v.$m::<$O, $U>($($arg),*),
             Path::Buf => {
                 let mut b = <$O as Vec1<$U>>::uninit($v.len());
+                rotate_ring_buffer(&mut b);
                 let r = $v.$mto::<$O, $U>($($arg,)* Some(<$O as Vec1<$U>>::uninit_ref_mut(&mut b)));
                 assert!(r.is_none(), "out-buffer path must return None");
                 unsafe { b.assume_init() }
@@ -391,6 +427,7 @@ macro_rules! disp2 {
             Path::Ret => $v.$m::<$O, $U, _, _>($($arg),*),
             Path::Buf => {
                 let mut b = <$O as Vec1<$U>>::uninit($v.len());
+                rotate_ring_buffer(&mut b);
                 let r = $v.$mto::<$O, $U, _, _>($($arg,)* Some(<$O as Vec1<$U>>::uninit_ref_mut(&mut b)));
                 assert!(r.is_none(), "out-buffer path must return None");
                 unsafe { b.assume_init() }
